@@ -408,14 +408,14 @@ def plan_C15(q, seed):
         sizes = [("ring", 1000), ("ring", 10000), ("ring", 100000), ("chords", 1000), ("chords", 100000),
                  ("selfmix", 1000), ("selfmix", 100000), ("clique", 100), ("clique", 300),
                  ("hub", 10000), ("hub", 40000), ("hub", 160000), ("chords", 25000), ("chords", 400000),
-                 ("sharedleaf", 3001), ("sharedleaf", 48001), ("aftermath", 200000), ("churn", 100000)]
+                 ("sharedleaf", 3001), ("sharedleaf", 48001), ("aftermath", 200000), ("churn", 300000)]
         stacks = [128]
         growth = [("hub", 40000, 160000), ("chords", 25000, 100000), ("chords", 100000, 400000), ("ring", 10000, 100000)]
     else:
         sizes = [(s, n) for s in ("ring", "chords", "selfmix") for n in (1000, 3000, 10000, 30000, 100000, 300000)]
         sizes += [("clique", n) for n in (50, 100, 200, 400, 600)]
         sizes += [("hub", n) for n in (10000, 40000, 160000, 640000)] + [("chords", 75000), ("chords", 1200000)]
-        sizes += [("sharedleaf", n) for n in (3001, 12001, 48001, 192001)] + [("aftermath", 50000), ("aftermath", 300000), ("churn", 50000), ("churn", 400000)]
+        sizes += [("sharedleaf", n) for n in (3001, 12001, 48001, 192001)] + [("aftermath", 50000), ("aftermath", 300000), ("churn", 100000), ("churn", 1000000)]
         stacks = [64, 128]
         growth = [("hub", 40000, 160000), ("hub", 160000, 640000), ("chords", 75000, 300000), ("chords", 300000, 1200000), ("ring", 30000, 300000), ("selfmix", 30000, 300000)]
     return {
